@@ -1891,6 +1891,13 @@ func (db *DB) verifyWithExecutor(ctx context.Context, exec *syncExecutor) (info 
 	if err != nil {
 		return info, fmt.Errorf("last page match: %w", err)
 	} else if !lastPageMatch {
+		// The WAL no longer holds what we copied (overwritten, or the database
+		// and its WAL were put back to an earlier copy). Frames in front of our
+		// old offset may belong to transactions we never saw and may not be
+		// checkpointed yet, so the snapshot has to read the WAL from its start,
+		// as every other snapshot decision in this function does.
+		info.offset = WALHeaderSize
+		info.salt1, info.salt2 = salt1, salt2
 		info.reason = "last page does not exist in last ltx file, wal overwritten by another process"
 		return info, nil
 	}
